@@ -486,6 +486,60 @@ func run(c *Ctx) {
 		c.Res.Evaluations += 5
 	}
 
+	// ---- hooks of the derivation path: siblings derived from one parent value ----
+	// (a parent whose hook slice has spare capacity - hooks added one Hook() call at a time - must not let
+	// one sibling's Hook() show up in the other; the siblings are derived directly, through With() and
+	// through Level(), and the first is used after the second was created)
+	{
+		w := &lastWriter{}
+		runs := 0
+		for nh := 0; nh <= 6; nh++ {
+			for via := 0; via < 3; via++ {
+				var ran []string
+				mk := func(tag string) zerolog.Hook {
+					return zerolog.HookFunc(func(e *zerolog.Event, l zerolog.Level, m string) { ran = append(ran, tag) })
+				}
+				parent := zerolog.New(w)
+				var path []string
+				for i := 0; i < nh; i++ {
+					tag := fmt.Sprintf("p%d", i)
+					parent = parent.Hook(mk(tag))
+					path = append(path, tag)
+				}
+				derive := func(tag string) zerolog.Logger {
+					switch via {
+					case 1:
+						return parent.With().Str("k", tag).Logger().Hook(mk(tag))
+					case 2:
+						return parent.Level(zerolog.Level(-128)).Hook(mk(tag))
+					}
+					return parent.Hook(mk(tag))
+				}
+				a := derive("A")
+				b := derive("B")
+				cc := derive("C")
+				for _, x := range []struct {
+					l   zerolog.Logger
+					tag string
+				}{{a, "A"}, {b, "B"}, {cc, "C"}, {parent, ""}, {a, "A"}} {
+					ran = nil
+					x.l.Log().Msg("m")
+					want := append([]string{}, path...)
+					if x.tag != "" {
+						want = append(want, x.tag)
+					}
+					runs++
+					if fmt.Sprint(ran) != fmt.Sprint(want) {
+						c.Violate(Violation{Key: "sibling-hooks-interfere", Monitor: "hooks-of-path", Desc: fmt.Sprintf("parent with %d hooks added one Hook() call at a time, three siblings derived %s: logger %q ran hooks %v, its derivation path says %v", nh, []string{"with Hook()", "with With()...Logger().Hook()", "with Level().Hook()"}[via], x.tag, ran, want),
+							Case: map[string]interface{}{"parent_hooks": nh, "via": via, "logger": x.tag}, Observed: ran, Expected: want})
+					}
+				}
+			}
+		}
+		c.Res.Evaluations += runs
+		c.Res.ExtraCoverage["hook_sibling_probes"] = runs
+	}
+
 	// ---- concurrent: goroutines log through different nodes of one tree ----
 	{
 		zerolog.SetGlobalLevel(zerolog.Level(-128))
